@@ -11,6 +11,22 @@ import (
 func TestC04(t *testing.T) {
 	params := C04Params(thorough())
 	checkFile(t, "C04", func(rt *rapid.T) *harness.Program {
-		return harness.GenProgram(rt, params)
+		p := harness.GenProgram(rt, params)
+		big := p.Cfg.MaxPages == 0 || p.Cfg.MaxPages >= 450
+		if big && rapid.IntRange(0, 7).Draw(rt, "bigregion") == 0 {
+			// a free region of 254/255/256/300 pages next to other free regions, a reopen,
+			// then allocations that consume the free list: ids must never be live pages
+			n := rapid.IntRange(320, 420).Draw(rt, "n")
+			cnt := rapid.SampledFrom([]int{254, 255, 255, 256, 300}).Draw(rt, "cnt")
+			start := rapid.IntRange(0, 12).Draw(rt, "start")
+			pre := []harness.Item{
+				{Tx: &harness.Tx{Ops: []harness.Op{{K: harness.OpAlloc, A: n}, {K: harness.OpWriteMany, A: 0, B: 0}, {K: harness.OpWriteMany, A: start + cnt, B: 30, C: 9}}, End: harness.EndCommit}},
+				{Tx: &harness.Tx{Ops: []harness.Op{{K: harness.OpFreeMany, A: start, B: cnt, C: 1}, {K: harness.OpFreeMany, A: start + 10, B: 8, C: 1}}, End: harness.EndCommit}},
+				{Reopen: &harness.Reopen{Mode: rapid.IntRange(0, 1).Draw(rt, "mode")}},
+				{Tx: &harness.Tx{Ops: []harness.Op{{K: harness.OpAlloc, A: rapid.IntRange(200, 330).Draw(rt, "again")}, {K: harness.OpWriteMany, A: 0, B: 40, C: 11}}, End: harness.EndCommit}},
+			}
+			p.Items = append(pre, p.Items...)
+		}
+		return p
 	}, RunC04)
 }
